@@ -462,6 +462,11 @@ def _sequence_common_getitem_impl(ctx: CallContext, typ: type) -> ImplReturn:
                 else:
                     return self_value.get_generic_arg_for_type(typ, ctx.visitor, 0)
             elif isinstance(key.val, slice):
+                try:
+                    key.val.indices(0)
+                except (TypeError, ValueError) as e:
+                    ctx.show_error(f"Invalid {typ.__name__} key {key}: {e}")
+                    return AnyValue(AnySource.error)
                 if isinstance(self_value, SequenceValue):
                     members = self_value.get_member_sequence()
                     if members is not None:
